@@ -1,8 +1,9 @@
 \* the grid backup AS BUILT (one slot): TLC must refute ExitRestoresGrid (selftest only; no VIEW: as built the snapshots are not determined by the backups)
 CONSTANTS N = 2  Par = {"p", "q"}  NVal = 2  NGrid = 2  MaxDepth = 2  MaxLevel = 7
-          GridSlot = "single"  PickleSerial = "fresh"
+          GridSlot = "single"  PickleSerial = "fresh"  DbSerial = "max"
 CONSTANTS Keeps <- KeepsNone  Acts <- ActsAsBuilt  Parent0 <- ParentD  Cls0 <- ClsD
           ParOf <- McParOf  GridCls <- McGridCls  MatCls <- McMatCls
+          DbCls <- McDbCls  CopyCls <- McAllCls  CallsOf <- McCallsOf
 INIT Init
 NEXT Next
 CONSTRAINT Bound
